@@ -8,6 +8,7 @@ import (
 	"io"
 	"os"
 	"path/filepath"
+	"reflect"
 	"strings"
 	"time"
 
@@ -299,6 +300,12 @@ func runReader(c *core.Ctx) {
 	case 2:
 		opts = append(opts, obiformats.OptionsFastSeqHeaderParser(obiformats.ParseFastSeqJsonHeader))
 	}
+	// full-file mode (OptionsFullFileBatch): the reader delivers ONE batch holding the records of the
+	// file, in file order
+	fullFile := (c.Idx/16)%3 == 2
+	if fullFile {
+		opts = append(opts, obiformats.OptionsFullFileBatch(true))
+	}
 	var rd io.Reader = bytes.NewReader(fc.text)
 	transport := "bytes"
 	switch c.Rng.Intn(3) {
@@ -312,9 +319,12 @@ func runReader(c *core.Ctx) {
 			defer pr.Close()
 		}
 	}
-	det := map[string]any{"format": format, "forced_chunk_size": chunk, "workers": workers, "transport": transport, "header_mode": headerMode, "records": nrec, "style": fc.style}
+	det := map[string]any{"format": format, "forced_chunk_size": chunk, "workers": workers, "transport": transport, "header_mode": headerMode, "records": nrec, "style": fc.style, "full_file_batch": fullFile}
 	c.Sample(det)
 	label := "reader:" + format
+	if fullFile {
+		label = "reader-fullfile:" + format
+	}
 	c.Risk(label)
 	var orders []int
 	var got map[int][]obsRec
@@ -346,6 +356,44 @@ func runReader(c *core.Ctx) {
 		return
 	}
 	det["batch_numbers_in_arrival_order"] = orders
+	if fullFile {
+		if len(orders) != 1 || orders[0] != 0 {
+			c.Violate("fullfile-batches:"+format, "full-file mode must deliver exactly one batch numbered 0", det)
+			return
+		}
+		if n > chunk {
+			c.Key("reader-fullfile/%s/%d/%s/%d/%d", format, workers, transport, headerMode, min(n/chunk, 10))
+			c.Count("multi_chunk_fullfile_reads", 1)
+		}
+		obs := got[0]
+		if headerMode != 0 && (format == "fasta" || format == "fastq") {
+			for i := range obs {
+				if i < len(fc.recs) && strings.HasPrefix(fc.recs[i].Def, "{") {
+					obs[i].Def = fc.recs[i].Def
+				}
+			}
+		}
+		if len(obs) == len(fc.recs) {
+			ids, want := map[string]int{}, map[string]int{}
+			inOrder := true
+			for i := range obs {
+				ids[obs[i].ID]++
+				want[fc.recs[i].ID]++
+				inOrder = inOrder && obs[i].ID == fc.recs[i].ID
+			}
+			if !inOrder && reflect.DeepEqual(ids, want) {
+				var seq []string
+				for _, o := range obs {
+					seq = append(seq, o.ID)
+				}
+				det["observed_ids"] = seq
+				c.Violate("fullfile-order:"+format, "full-file mode: the single batch holds the records of the file but not in file order", det)
+				return
+			}
+		}
+		compare(c, "reader layer, full-file batch", fc, obs, det)
+		return
+	}
 	if len(orders) >= 2 {
 		c.Key("reader/%s/%d/%d/%s/%d/%d", format, workers, min(len(orders), 10), transport, headerMode, nrec)
 		c.Count("multi_chunk_reads", 1)
